@@ -154,6 +154,26 @@ Print Assumptions C13_history_preserves_caller_memory.
 Example C13_history_start_nonvacuous : forall (own : nat -> owner), pinv own caller_names (fun _ _ => False).
 Proof. intro own. exact (pinv_empty own caller_names). Qed.
 
+(* CALLS BETWEEN REGISTERED METHODS (formerly a trusted assumption).  The translator turns a call of a registered method
+   from another body (an optimizer calling its inner method, the decorator calling the decorated body) into "writes
+   none of its arguments".  This is a consequence of the table, not an assumption: every registered body (all of
+   them: the list has n_registered entries) is a write-site body whose entry taint contains EVERY one of its
+   parameters, so whatever the caller passes may be caller-owned and still every execution of the callee, returning
+   or raising, leaves all caller-owned buffers unchanged. *)
+Theorem C13_registered_calls_write_nothing : forall e, In e registered_params ->
+  exists b, In b write_bodies /\ b_name b = fst e
+    /\ (forall p, In p (snd e) -> mem p (b_tainted b) = true)
+    /\ forall (V : Type) (own : nat -> owner) st t o,
+         covers own st (b_tainted b) -> exec V own (b_code b) st t o ->
+         forall (h : heap V) k u, own u = User -> run V h (firstn k t) u = h u.
+Proof. exact registered_call_safe. Qed.
+Print Assumptions C13_registered_calls_write_nothing.
+
+Theorem C13_registered_table_complete :
+  forallb reg_entry_total registered_params = true /\ Nat.eqb (List.length registered_params) n_registered = true.
+Proof. exact gen_registered_entry_total. Qed.
+Print Assumptions C13_registered_table_complete.
+
 (* ---- non-vacuity *)
 Example C13_copy_flag_matters_nonvacuous : setup_w_may_alias false = true /\ setup_w_may_alias true = false.
 Proof. split; [exact setup_w_may_alias_false | exact setup_w_may_alias_true]. Qed.
